@@ -7,7 +7,7 @@ CONSTANTS
   Limit = 3
   Window = 4
   MaxRound = 3
-  MaxSnaps = 8
+  MaxSnaps = 7
   MaxEarly = 1
   Late = {}
   MaxPub = 1
@@ -19,11 +19,5 @@ CONSTANTS
   Eager = TRUE
   Track = FALSE
 VIEW View
-INVARIANT TypeOK
-INVARIANT RemoteClosed
-INVARIANT NeverDropped
-PROPERTY SinceSafe
-PROPERTY OffsetMin
-PROPERTY HeadSafe
-PROPERTY HeadCoversFrontier
+PROPERTY NoWaste
 CHECK_DEADLOCK FALSE
